@@ -16,6 +16,9 @@ mod read;
 mod shell;
 mod write;
 
+#[cfg(rip_verif)]
+pub use shell::verif_capture_stream;
+
 #[derive(Clone, Debug)]
 pub struct BuiltinToolConfig {
     pub workspace_root: PathBuf,
